@@ -23,7 +23,7 @@ ANCHOR_FILES = ['cirbo/core/circuit/circuit.py', 'cirbo/core/circuit/validation.
 ASSUMPTIONS = ['own reachability closure / DFS over the operand relation is the definition of reachable / cyclic']
 REQUIRED = {'mon:top_sort.checked': 200, 'mon:dfs.checked': 500, 'mon:bfs.checked': 500,
             'mon:check_circuit_has_no_cycles.checked': 100, 'cycle:raised_expected': 20, 'cycle:clean_expected': 20,
-            'cycle:unreachable_cycle': 3, 'peeking_hooks': 200}
+            'cycle:unreachable_cycle': 3, 'peeking_hooks': 200, 'cycle:explicit_start_lists': 200}
 
 CUR = {'ctx': None, 'case': None}
 
@@ -288,7 +288,7 @@ def _post_cycle(state, args, kwargs, result):
     ctx.mon('check_circuit_has_no_cycles')
     if state:
         ctx.violation('check_circuit_has_no_cycles', 'wrong_result', 'missed_cycle',
-                      'returned normally although a cycle is reachable from the outputs', CUR['case'])
+                      'returned normally although a cycle is reachable from the start set (default: the outputs)', CUR['case'])
     else:
         ctx.count('cycle:clean_expected')
 
@@ -302,7 +302,7 @@ def _raise_cycle(state, args, kwargs, exc):
     if isinstance(exc, CircuitValidationError):
         if not state:
             ctx.violation('check_circuit_has_no_cycles', 'exception', 'false_cycle',
-                          'raised CircuitValidationError although no cycle is reachable from the outputs', CUR['case'])
+                          'raised CircuitValidationError although no cycle is reachable from the start set (default: the outputs)', CUR['case'])
         else:
             ctx.count('cycle:raised_expected')
     else:
@@ -438,6 +438,22 @@ def check_case(case, ctx):
                     validation.check_circuit_has_no_cycles(cc)
                 except Exception:
                     pass
+                # explicit start lists of every kind a caller may pass: subsets, lists with repeated labels (drawn with
+                # replacement) of length 1 .. size+1, the output list, all gates
+                cl = list(cc.gates)
+                starts = [[], list(cc.outputs), list(cl)]
+                for ln in sorted({1, 2, max(1, len(cl) // 2), max(1, len(cl) - 1), len(cl), len(cl) + 1}):
+                    starts.append([rng.choice(cl) for _ in range(ln)])
+                    down_free = [l for l in cl if l not in down]
+                    if down_free:
+                        starts.append([rng.choice(down_free) for _ in range(ln)])   # avoids the cycle on purpose
+                for st_ in starts:
+                    CUR['case'] = dict(case, cyclic_bench=text, start_gates=st_)
+                    try:
+                        validation.check_circuit_has_no_cycles(cc, st_)
+                    except Exception:
+                        pass
+                    ctx.count('cycle:explicit_start_lists')
                 ctx.case('%s:cyclic:%s:%d:%s' % (sh, g, k, tgt), True, cls='mode:cycle_check')
             CUR['case'] = case
 
